@@ -70,7 +70,7 @@ ASSUMPTIONS = [
 MUST_REACH = {"inventory_nodes": 600, "text_roundtrips": 200, "legacy_llsd_roundtrips": 200, "ais_roundtrips": 200,
               "llsd_wire_roundtrips": 150, "model_roundtrips": 60, "ais_model_roundtrips": 40, "enum_members_swept": 100, "optional_absent": 300,
               "metadata_present": 100, "wearables": 40, "animations": 80, "anim_versions_covered": 2, "meshes": 40,
-              "mesh_segments_covered": 6, "meshes_edited_after_raw_parse": 15, "xfer_sequences": 3000, "xfer_sequences_turbo": 1000, "paced_transfers": 4, "parsed_models_edited_then_parsed_again": 30, "paced_transfers_completed": 3, "out_of_order_completions_turbo": 100, "transfer_sequences": 1500, "out_of_order_completions": 500,
+              "mesh_segments_covered": 6, "meshes_edited_after_raw_parse": 15, "xfer_sequences": 3000, "xfer_sequences_turbo": 1000, "paced_transfers": 4, "paired_transfers_completed_turbo_multichunk": 4, "parsed_models_edited_then_parsed_again": 30, "paced_transfers_completed": 3, "out_of_order_completions_turbo": 100, "transfer_sequences": 1500, "out_of_order_completions": 500,
               "duplicate_arrivals": 500, "boundary_sizes_covered": 20, "tz_covered": 3}
 
 TEXT_POOL = ["", "a", "New Script", "Object", "hello world", "é中\U0001f600", "quote\"s 'single'", "back\\slash", "{", "}", "a = b",
@@ -828,6 +828,90 @@ def paced_transfers(ctx, rng):
             ctx.nontrivial(("paced", tuple(gaps)))
 
 
+class _WiredCircuit:
+    """Hands every message sent to the peer's handler on the next loop iteration, through the real wire form."""
+    def __init__(self, loop, peer_handler, log):
+        self.loop, self.peer, self.log, self.n = loop, peer_handler, log, 0
+
+    def send(self, msg):
+        self.n += 1
+        msg.packet_id = self.n
+        data = bytes(_SER.serialize(msg))
+        self.log.append(msg.name)
+        self.loop.call_soon(lambda: self.peer.handle(_DES.deserialize(data)))
+
+    def send_reliable(self, msg, transport=None):
+        self.send(msg)
+        return self.loop.create_future()
+
+
+def paired_transfers(ctx, rng):
+    """Both ends the library's own: serve_inbound_xfer_request() as callers use it (confirmations awaited, the default) feeding
+    request() in both acknowledgement modes. Judged in loop iterations, not seconds: the transfer has to complete, on both ends,
+    within a generous number of iterations per chunk, and reassemble to the payload."""
+    loop = asyncio.get_event_loop_policy().get_event_loop()
+    sizes = [0, 1, xm.MAX_CHUNK_SIZE - 5, xm.MAX_CHUNK_SIZE - 4, xm.MAX_CHUNK_SIZE - 3, 2 * xm.MAX_CHUNK_SIZE - 4,
+             2 * xm.MAX_CHUNK_SIZE + rng.randint(0, 50), 3 * xm.MAX_CHUNK_SIZE, 5 * xm.MAX_CHUNK_SIZE + 1, 12 * xm.MAX_CHUNK_SIZE + rng.randint(0, 900)]
+    for size in sizes:
+        for turbo in (False, True):
+            for confirm in (True, False):
+                payload = bytes((i * 11 + size + turbo) & 0xFF for i in range(size))
+                from hippolyzer.lib.base.message.message_handler import MessageHandler
+                sh, rh = MessageHandler(), MessageHandler()
+                log = []
+                sender_holder, receiver_holder = _Holder(), _Holder()
+                sender_holder.message_handler, receiver_holder.message_handler = sh, rh
+                sender_holder.circuit = _WiredCircuit(loop, rh, log)
+                receiver_holder.circuit = _WiredCircuit(loop, sh, log)
+                sender, receiver = xm.XferManager(sender_holder), xm.XferManager(receiver_holder)
+                outbound = xm.Xfer(data=payload)
+                n_chunks = len(outbound.chunks)
+                state = {}
+
+                async def go():
+                    kw = {} if confirm else {"wait_for_confirm": False}
+                    task = asyncio.ensure_future(sender.serve_inbound_xfer_request(outbound, lambda m: True, **kw))
+                    await asyncio.sleep(0)
+                    inbound = receiver.request(xfer_id=777, file_name=b"f", turbo=turbo)
+                    state.update(task=task, inbound=inbound)
+                    for step in range(400 + 200 * n_chunks):
+                        if inbound.done() and task.done():
+                            break
+                        await asyncio.sleep(0)
+                    state["steps"] = step
+                    if not task.done():
+                        task.cancel()
+                    if not inbound.done():
+                        inbound.cancel()
+                    for _ in range(5):
+                        await asyncio.sleep(0)
+                wit = {"size": size, "chunks": n_chunks, "turbo": turbo, "sender_waits_for_confirmations": confirm, "kind": "paired"}
+                try:
+                    loop.run_until_complete(go())
+                except Exception as e:
+                    ctx.violation("paired-xfer:raises", "driving a sender/receiver pair raised", dict(wit, exc=repr(e)[:200]))
+                    continue
+                ctx.ev()
+                ctx.count("paired_transfers")
+                task, inbound = state["task"], state["inbound"]
+                wit["messages"] = {n: log.count(n) for n in set(log)}
+                if inbound.cancelled() or inbound._future.exception() is not None:
+                    ctx.violation("paired-xfer:receiver-never-completes", "the library's receiver fed by the library's sender did not "
+                                  "complete the transfer", dict(wit, chunks_arrived=len(inbound.chunks)))
+                    continue
+                if task.cancelled() or task.exception() is not None:
+                    ctx.violation("paired-xfer:sender-never-finishes", "the library's sender did not finish although the receiver has "
+                                  "everything", dict(wit, exc=None if task.cancelled() else repr(task.exception())[:200]))
+                    continue
+                if bytes(inbound.reassemble_chunks()) != payload:
+                    ctx.violation("xfer-reassembly-differs", "the reassembled payload is not the payload that was sent", wit)
+                    continue
+                ctx.count("paired_transfers_completed")
+                if turbo and n_chunks > 1 and confirm:
+                    ctx.count("paired_transfers_completed_turbo_multichunk")
+                ctx.nontrivial(("paired", size, turbo, confirm))
+
+
 def transfers(ctx, share, nshares):
     rng = ctx.rng
     loop = asyncio.get_event_loop_policy().get_event_loop()
@@ -955,6 +1039,7 @@ def run(ctx):
     transfers(ctx, ctx.shard, ctx.nshards)
     if ctx.shard == 0:
         paced_transfers(ctx, ctx.rng)
+        paired_transfers(ctx, ctx.rng)
 
 
 def replay(ctx, w):
@@ -962,6 +1047,8 @@ def replay(ctx, w):
         asyncio.get_event_loop_policy().get_event_loop()
     except Exception:
         asyncio.set_event_loop(asyncio.new_event_loop())
+    if w.get("kind") == "paired":
+        return paired_transfers(ctx, ctx.rng)
     inventory(ctx, 25)
     enum_sweep(ctx)
     wearable_checks(ctx, 10)
